@@ -199,7 +199,7 @@ HEADER = """#[verifier::exec_allows_no_decreases_clause]
                 && (forall|i: int| 0 <= i < old(self).loops@.len() - 1 ==> #[trigger] final(self).loops@[i] == old(self).loops@[i]), //@ C01:switch-loop-stack-restored
             (res is Ok && old(self).loops@.len() > 0) ==> ({ let n = old(self).loops@.len() - 1;
                 final(self).loops@[n].0 == old(self).loops@[n].0 && final(self).loops@[n].1 == old(self).loops@[n].1
-                && final(self).loops@[n].2 == (old(self).loops@[n].2 || any_continue(cases@)) }), //@ C01,C13:switch-continue-marks-the-enclosing-loop
+                && final(self).loops@[n].2 == (old(self).loops@[n].2 || any_continue(cases@)) }), //@ C01,C13,C16:switch-continue-marks-the-enclosing-loop
 """
 
 
@@ -336,8 +336,9 @@ def build(repo):
     f.sub(r"\b(l\.0|switchend_label|switchnextstatement_label|switchnextcase_label)\.clone\(\)", r"string_clone(&\1)", "R11 String::clone -> shim", expect=(1, 8))
     f.sub(r'""\.to_string\(\)', "string_empty()", "R11 \"\".to_string() -> shim", expect=(0, 2))
     f.sub(r"match self\.loops\.last\(\) \{", "match vec_last(&self.loops) {", "R18 Vec::last -> shim", expect=(0, 2))
-    f.sub(r"if let Some\(l\) = self\.loops\.last_mut\(\) \{\s*l\.2 = true;\s*\}",
-          "if self.loops.len() > 0 { let __e = self.loops.pop().unwrap(); self.loops.push((__e.0, __e.1, true)); }", "R18 last_mut() -> pop / push of the same entry with the mark set", expect=(0, 1))
+    common.r27_is_some_and(f)
+    f.sub(r"if let Some\(l\) = self\.loops\.last_mut\(\) \{\s*l\.2 = ([^;{}]+);\s*\}",
+          r"if self.loops.len() > 0 { let __e = self.loops.pop().unwrap(); self.loops.push((__e.0, __e.1, \1)); }", "R18 last_mut() -> pop / push of the same entry with the mark assigned", expect=(0, 1))
     # R26: iterator adapters -> index loops over the same sequences, in the same order
     def r26(mm):
         cond = re.sub(r"\bi\b", "__i", mm.group(1))
